@@ -1,3 +1,188 @@
 package sim
 
-func (o *Observer) resolve(st *Step) {}
+import (
+	"encoding/json"
+	"fmt"
+
+	"github.com/trustbloc/sidetree-go/pkg/api/operation"
+	"github.com/trustbloc/sidetree-go/pkg/api/protocol"
+	"github.com/trustbloc/sidetree-go/pkg/docutil"
+	"github.com/trustbloc/sidetree-go/pkg/versions/1_0/doctransformer/didtransformer"
+
+	"verif/sim/core"
+	"verif/sim/ref"
+)
+
+// resolve answers a resolution request for a DID the observer has a state for and compares the result with the
+// reference resolution (C18). Operation lists are handed over in arrival order: shuffled, with duplicates sharing a
+// canonical reference, with transaction numbers that reset per block.
+func (o *Observer) resolve(st *Step) {
+	w := o.w
+	if len(o.order) == 0 {
+		return
+	}
+	suffix := o.order[((st.DID%len(o.order))+len(o.order))%len(o.order)]
+	f := o.folds[suffix]
+	if f == nil || f.rm == nil || f.rm.Doc == nil {
+		return
+	}
+	model := w.Model.StateAt(suffix, f.fed)
+	if model == nil || !model.Exists {
+		return
+	}
+	r := core.NewRNG(w.Plan.Seed).Stream(fmt.Sprintf("resolve/%d", w.step))
+	base, incPub, incUnpub, withCtx, published := st.Opts&1 != 0, st.Opts&2 != 0, st.Opts&4 != 0, st.Opts&8 != 0, st.Opts&16 != 0
+	var methodCtx []string
+	if withCtx {
+		methodCtx = []string{"https://w3id.org/did-method/sim/v1", "https://example.com/ctx/2"}
+	}
+	opts := []didtransformer.Option{didtransformer.WithBase(base), didtransformer.WithIncludePublishedOperations(incPub),
+		didtransformer.WithIncludeUnpublishedOperations(incUnpub)}
+	if withCtx {
+		opts = append(opts, didtransformer.WithMethodContext(methodCtx))
+	}
+	tr := didtransformer.New(opts...)
+
+	// operation lists: the real anchored operations of the DID plus synthetic ones with arbitrary (time, number) pairs
+	used := map[[2]uint64]bool{}
+	var pub, unpub []*operation.AnchoredOperation
+	var pubD, unpubD []ref.OpDesc
+	add := func(op *operation.AnchoredOperation, published bool) {
+		key := [2]uint64{op.TransactionTime, op.TransactionNumber}
+		if used[key] {
+			return // ties have no defined order
+		}
+		used[key] = true
+		d := ref.OpDesc{Type: string(op.Type), Request: op.OperationRequest, Time: op.TransactionTime, Number: op.TransactionNumber,
+			Version: op.ProtocolVersion, Canonical: op.CanonicalReference, Equivalent: op.EquivalentReferences, Origin: normAny(op.AnchorOrigin)}
+		if published {
+			pub, pubD = append(pub, op), append(pubD, d)
+		} else {
+			unpub, unpubD = append(unpub, op), append(unpubD, d)
+		}
+	}
+	for i, a := range f.arrival {
+		cp := *a
+		if cp.CanonicalReference == "" {
+			cp.CanonicalReference = fmt.Sprintf("uEiArr%d", i)
+		}
+		add(&cp, true)
+	}
+	for n := r.Intn(6); n > 0; n-- {
+		syn := &operation.AnchoredOperation{Type: operation.TypeUpdate, UniqueSuffix: suffix, OperationRequest: []byte(fmt.Sprintf("{\"syn\":%d}", n)),
+			TransactionTime: uint64(Epoch + int64(r.Intn(400))), TransactionNumber: uint64(r.Intn(4)), ProtocolVersion: w.Plan.Swarm.GenesisTime,
+			CanonicalReference: fmt.Sprintf("uEiSyn%d", r.Intn(4))}
+		if r.Chance(1, 3) {
+			syn.EquivalentReferences = []string{"hl:alt"}
+			syn.AnchorOrigin = "https://origin.example"
+		}
+		add(syn, !r.Chance(1, 3))
+	}
+	core.Shuffle(r, pub)
+	core.Shuffle(r, unpub)
+	if st.Opts&32 != 0 {
+		// the lists already in anchoring order must come out unchanged too
+		pubD2 := ref.SortOps(pubD)
+		pub = pub[:0]
+		for _, d := range pubD2 {
+			for _, a := range append(append([]*operation.AnchoredOperation{}, f.arrival...), unpub...) {
+				_ = a
+			}
+			_ = d
+		}
+		pub = nil
+		for _, d := range pubD2 {
+			pub = append(pub, &operation.AnchoredOperation{Type: operation.Type(d.Type), UniqueSuffix: suffix, OperationRequest: d.Request, TransactionTime: d.Time,
+				TransactionNumber: d.Number, ProtocolVersion: d.Version, CanonicalReference: d.Canonical, EquivalentReferences: d.Equivalent, AnchorOrigin: d.Origin})
+		}
+	}
+
+	rm := *f.rm
+	rm.PublishedOperations, rm.UnpublishedOperations = pub, unpub
+	ns := w.Plan.Swarm.Namespace
+	id := ns + ":" + suffix
+	var info protocol.TransformationInfo
+	var canonicalID string
+	var equivalentIDs []string
+	if published {
+		info = docutil.GetTransformationInfoForPublished(ns, id, suffix, &rm)
+		canonicalID = ns + ":" + suffix
+		if rm.CanonicalReference != "" {
+			canonicalID = ns + ":" + rm.CanonicalReference + ":" + suffix
+		}
+		equivalentIDs = []string{canonicalID}
+		for _, e := range rm.EquivalentReferences {
+			equivalentIDs = append(equivalentIDs, ns+":"+e+":"+suffix)
+		}
+	} else {
+		info = docutil.GetTransformationInfoForUnpublished(ns, "", "", suffix, "")
+	}
+
+	res, err := tr.TransformDocument(&rm, info)
+	w.T.Count("resolutions_checked", 1)
+	w.T.Event("%s resolve %s opts=%d err=%v", o.name, suffix, st.Opts, err != nil)
+	wantDoc, werr := ref.ExternalDocument(model.Doc, id, base, methodCtx)
+	if werr != nil {
+		return
+	}
+	if err != nil {
+		w.violate("C18/transform-failed", "", "TransformDocument failed on a document built from validated patches: %v", err)
+		return
+	}
+	gotDoc := ref.Norm(map[string]any(res.Document)).(map[string]any)
+	w.T.Mark(fmt.Sprintf("res:%d:%d:%d:%d", st.Opts, len(ref.View(model.Doc, ref.MPublicKey)), len(ref.View(model.Doc, ref.MService)), len(pub)))
+	if !ref.Equal(gotDoc, wantDoc) {
+		w.violate("C18/document", firstDiffMember(gotDoc, wantDoc), "resolved document %s, want %s", clip(ref.JCS(gotDoc)), clip(ref.JCS(wantDoc)))
+	}
+	if res.Context != ref.CtxDIDResolution {
+		w.violate("C18/resolution-context", "", "resolution context %v", res.Context)
+	}
+	rs := &ref.ResState{UpdCommit: model.UpdCommit, RecCommit: model.RecCommit, AnchorOrigin: model.AnchorOrigin, Deactivated: model.Deactivated,
+		Created: model.Created, Updated: model.Updated, VersionID: model.VersionID, Published: pubD, Unpublished: unpubD}
+	wantMD := ref.Metadata(rs, published, canonicalID, equivalentIDs, incPub, incUnpub)
+	mdBytes, merr := json.Marshal(res.DocumentMetadata)
+	if merr != nil {
+		w.violate("C18/metadata-marshal", "", "%v", merr)
+		return
+	}
+	gotMD, _ := ref.Parse(mdBytes)
+	if !ref.Equal(gotMD, wantMD) {
+		gm, _ := gotMD.(map[string]any)
+		wit := firstDiffMember(gm, wantMD)
+		if wit == "method" {
+			wit = "method." + firstDiffMember(asMap(gm["method"]), asMap(wantMD["method"]))
+		}
+		w.violate("C18/metadata", wit, "metadata %s, want %s", clipN(ref.JCS(gotMD), 700), clipN(ref.JCS(wantMD), 700))
+	}
+}
+
+func asMap(v any) map[string]any {
+	m, _ := v.(map[string]any)
+	return m
+}
+
+func clipN(b []byte, n int) string {
+	if len(b) > n {
+		return string(b[:n]) + "..."
+	}
+	return string(b)
+}
+
+// firstDiffMember names the first (sorted) top-level member on which two objects differ.
+func firstDiffMember(a, b map[string]any) string {
+	keys := map[string]bool{}
+	for k := range a {
+		keys[k] = true
+	}
+	for k := range b {
+		keys[k] = true
+	}
+	for _, k := range core.SortedKeys(keys) {
+		av, aok := a[k]
+		bv, bok := b[k]
+		if aok != bok || !ref.Equal(av, bv) {
+			return k
+		}
+	}
+	return "?"
+}
